@@ -21,9 +21,11 @@ import DrandProofs.C09
 namespace Drand.DKG
 open Drand
 
-/-- the code as it is: no length check on participant signatures in proposal validation (the model's `validateForAllDKGs`
-is `validateForAllDKGsV` of this fact) -/
-theorem tie_sig_length_variant : Gen.DKGAuth.validatesSignatureLengths = false ∧ Gen.DKGAuth.signatureLengthsOver = "" := ⟨rfl, rfl⟩
+/-- the code as repaired (355471af): proposal validation refuses participant signatures whose length is not the scheme's, for
+joining, remaining, leaving and the leader (the model's `validateForAllDKGs` is `validateForAllDKGsV` of this fact; before the
+repair the fact was `false` and `c09_boundary_replay_counterexample_asis` below was reachable on the real process) -/
+theorem tie_sig_length_variant : Gen.DKGAuth.validatesSignatureLengths = true ∧ Gen.DKGAuth.signatureLengthsOver =
+    "util.Concat(terms.Joining,terms.Remaining,terms.Leaving,[]*drand.Participant{terms.Leader})" := ⟨rfl, rfl⟩
 
 /-- printable 7-bit text without a line feed -/
 def Plain (s : String) : Prop := ∀ c ∈ s.toList, c.toNat < 128 ∧ c ≠ '\n'
@@ -326,14 +328,17 @@ def lbSigned : Terms :=
 def lbRelayed : Terms := { lbSigned with remaining := [lbL, lbA'], leaving := [] }
 
 set_option maxRecDepth 8000 in
-/-- … and on the process: a newcomer is shown `lbRelayed` with the signature the leader made on `lbSigned`, and stores
-`lbRelayed` — nobody leaving — as the leader's proposal -/
+/-- … and on the process. Before the repair (validation without the length test) a newcomer shown `lbRelayed` with the
+signature the leader made on `lbSigned` passed validation and stored `lbRelayed` — nobody leaving — as the leader's proposal
+(replayed on the real dkg.Process at the time: corpus/C09/boundary_inside_signature_field.json). With the length test the
+relayed terms are refused and the process is unchanged. -/
 theorem c09_boundary_replay_counterexample :
-    let p : Proc := { beaconID := "default", me := lbJ }
-    let m : Meta := { beaconID := "default", addr := "l:1", sigId := "0011223344", sigKey := lbL.key,
-                      sigMsg := messageForSigning "default" (.proposal lbSigned) lbSigned }
-    ((p.packet m (.proposal lbRelayed) 0).1.current.map fun n => (n.state, n.leaving.length, n.remaining.map (·.sig.length))) =
-      some (.proposed, 0, [2, 20]) := by
+    (validateForAllDKGsV false (newFreshState "default") lbRelayed 0).toOption = some () ∧
+    (validateForAllDKGsV true (newFreshState "default") lbRelayed 0).toOption = none ∧
+    (let p : Proc := { beaconID := "default", me := lbJ }
+     let m : Meta := { beaconID := "default", addr := "l:1", sigId := "0011223344", sigKey := lbL.key,
+                       sigMsg := messageForSigning "default" (.proposal lbSigned) lbSigned }
+     (p.packet m (.proposal lbRelayed) 0).1.current.isNone = true) := by
   decide
 
 /-- what acceptance means at the byte level (the `_partial` form): if the signature on an accepted packet was made by an
